@@ -28,3 +28,21 @@ Print Assumptions c01_prim_dec_enc_dec.
 
 Example c01_nonvacuous : wf_prim (fun v => v =? 3) (VEnum 3) = true /\ wf_prim (fun _ => false) (VBig (-(2 ^ 200))) = true.
 Proof. split; vm_compute; reflexivity. Qed.
+
+(* ---- structures, payloads, messages: generic over every schema environment accepted by env_ok ---- *)
+From PK Require Import Codec.Schema Codec.SchemaProofs.
+
+(* for every version, nesting depth and value: decoding what was encoded yields the value and the untouched rest *)
+Theorem c01_roundtrip : forall E v, env_ok E = true -> In v VERSIONS ->
+  forall fuel tag k x bs, tag_ok tag = true -> wfv E v fuel k x = true ->
+  wr E v fuel tag k x = Some bs -> forall rest, rd E v fuel tag k (bs ++ rest) = Some (x, rest).
+Proof. exact roundtrip. Qed.
+Print Assumptions c01_roundtrip.
+
+(* re-encoding the decoded value reproduces the same bytes *)
+Theorem c01_reencode : forall E v, env_ok E = true -> In v VERSIONS ->
+  forall fuel tag k x bs rest x' rest', tag_ok tag = true -> wfv E v fuel k x = true ->
+  wr E v fuel tag k x = Some bs -> rd E v fuel tag k (bs ++ rest) = Some (x', rest') ->
+  x' = x /\ rest' = rest /\ wr E v fuel tag k x' = Some bs.
+Proof. exact reencode. Qed.
+Print Assumptions c01_reencode.
